@@ -294,7 +294,7 @@ def run_lines(binary_args, lines, shards=None, timeout=900, single_timeout=20):
     import threading
     results = [None] * len(procs)
 
-    def batch(p, chunk, tmo, stall=120):
+    def batch(p, chunk, tmo, stall=60):
         """-> complete output lines of one process fed with chunk (fewer than len(chunk) if it crashed, ran out of time, or
         printed nothing for `stall` seconds: the line it is stuck on is then run alone under single_timeout)"""
         import select
